@@ -1,8 +1,9 @@
 ENTRY = dict(
-    runner="C13", pkg="./cmd/c13", corr=["Corr.C13Corr"], n=dict(quick=900, thorough=3500), runner_timeout=900,
-    rule="every predefined parrot, 7 custom specs (TLSVersMax 1.2 under a supported_versions list {1.3,1.2}; lists with a hole {1.2,1.0}, "
+    runner="C13", pkg="./cmd/c13", corr=["Corr.C13Corr"], n=dict(quick=1090, thorough=3700), runner_timeout=900,
+    rule="every predefined parrot, 11 custom clients (TLSVersMax 1.2 under a supported_versions list {1.3,1.2}; lists with a hole {1.2,1.0}, "
          "{GREASE,1.3,1.1}, {1.3,1.0}; no supported_versions extension with TLSVersMin raised to 1.2 / 1.1; a 1.3 parrot stripped of the "
-         "extension) and caller-side Config variations (MinVersion/MaxVersion pre-set wider 1.0..1.3 or narrower 1.2..1.2 than the spec, one "
+         "extension with TLSVersMax 1.2, with TLSVersMax left at 1.3 (min 1.2 and min 1.0), and built Firefox_105 / Chrome_120 UConns whose "
+         "SupportedVersionsExtension is removed from uc.Extensions after BuildHandshakeState) and caller-side Config variations (MinVersion/MaxVersion pre-set wider 1.0..1.3 or narrower 1.2..1.2 than the spec, one "
          "*Config reused after a Firefox_102 UConn) over loopback TCP against scripted servers: honest Go servers with MaxVersion "
          "1.0/1.1/1.2/1.3; legacy servers negotiating from legacy_version only with MaxVersion 1.0/1.1/1.2; servers forcing 1.0/1.1/1.2 with the "
          "RFC 8446 sentinel set by the library's rule / omitted / forced DOWNGRD\\x01 / forced DOWNGRD\\x00; forced 1.3 (client material "
@@ -18,8 +19,12 @@ ENTRY = dict(
     trusted_base=["verif_server.go scripted server and verif_c12.go view accessors", "harness/hs ClientHello wire parser",
                   "Go crypto/x509 against a throw-away CA",
                   "cryptography, certificate validation, Finished and record protection abstracted into the flight's f_crypto_ok bit"],
-    assumes=["hello.supportedVersions equals the supported_versions list on the wire when the extension is sent, and the configured range lies "
-             "within [spec minimum .. legacy_version] when it is not (versions_synced): checked for every parrot on every run",
+    assumes=["NegotiateVersP.versions_ok: hello.supportedVersions equals the supported_versions list on the wire when the extension is sent; without it "
+             "it is the accepted versions up to legacy_version (fix 49ffec3) and the configured minimum is not below the spec's: checked for every "
+             "client on every run, and PROVED from a model of writeToUConn/ApplyConfig/SetTLSVers and the marshal model (Props/C13.v "
+             "C13_versions_view_is_wire, C13_version_advertised_from_spec/_from_preset, C13_canary_from_spec; notes/Compose.md) modulo the premises "
+             "listed there: typed_ext (supported_versions not smuggled through a GenericExtension), wf_specb/spec_fitsb of ApplyPreset's output, "
+             "spec minimum <= Config.MinVersion (SetTLSVers writes it unless an ECH config list is present)",
              "no ECH configured (Config.supportedVersions drops < 1.3 under ECH; modelled, not exercised); TLS 1.2 ticket resumption modelled (Model/NegotiateSess.v), session-id caches and TLS 1.3 PSK histories not exercised here"],
     level_text="Proof for every view, wire hello and server flight that a completed handshake is at an advertised version, and that a "
                "client whose hello lists TLS 1.3 completes only at 1.3 when the first server hello carries a downgrade sentinel; both "
